@@ -94,6 +94,8 @@ class Model(object):
             if arg > prev:
                 return ACCEPT, ''
             return REJECT, 'bar-not-up'
+        if op == 'badtrial':
+            return REJECT, 'unknown-trial-letter'
         a = self.ath[arg]
         if st == 'scheduled':
             return REJECT, 'not-started'
